@@ -28,9 +28,12 @@ the rows of the subject's own Tokens table (chain positions are recomputed by wa
        registered (content hash of that token, name in md, key(P), metadata None or equal to the extra fields of md)
        at most 300 s ago, and Y has not emitted an attestation for md before. Rows (P, Y, md) in Y's Attestations
        table must correspond to such an emission.
-  C1h  (progress, honest flow only) after an honest advertise X -> Y that matches Y's *latest* registration for
-       that hash, younger than 300 s, with the whole chain delivered and X never having sent crafted material to
-       Y, Y must have emitted the attestation.
+  C1h  (progress, honest flow only - the statement itself is an "only if") after an honest advertise X -> Y whose
+       metadata matches Y's *latest* registration for that hash, younger than 300 s, X never having sent crafted
+       material to Y, and the last token-carrying message X -> Y listing every token behind the genesis or behind a
+       token Y must already hold, Y must have emitted the attestation. (A disclosure whose tokens are listed in
+       another order is reported as incorrect by the code although every token ends up attached; the statement
+       does not speak about that, so such flows are not judged.)
   C2   a row (R, authority, md, sig) in R's Attestations table exists only if an AttestPayload with exactly these
        bytes, validly signed by ``authority``, was delivered to R in a datagram validly signed by ``authority``;
        every other row must at least verify under its authority key. C2h: a valid attestation for a metadata
@@ -68,7 +71,9 @@ ASSUMPTIONS = [
     "signature verification of the key vault (libsodium) is trusted; SHA3-256 collisions do not occur",
     "upper bound of consent (C1) counts every registration the user ever made, also one overwritten by a later "
     "registration of the same hash; age exactly 300 s is accepted either way; the progress clauses (C1h, C2h) are "
-    "only asserted for honest flows without crafted material between the two nodes",
+    "only asserted for honest flows without crafted material between the two nodes, for disclosures that arrive "
+    "while the receiver's user has named the sender in a registration (others may be dropped) and list their "
+    "tokens parent-first",
     "a registration consents to every metadata entry that matches it (the same hash advertised twice yields two "
     "attestations), but to each metadata entry only once",
     "the network may lose datagrams: at most FLIGHT_BUDGET deliveries per action, the rest is dropped",
@@ -84,7 +89,7 @@ ADV_META = [None, {"a": "b"}, {"a": "c"}, {"a": "b", "c": "d"}]
 WAITS = [1, 100, 150, 200, 299, 300, 301, 1000]
 KNOWN = [0, 1, 2, 5, 11, 2 ** 32 - 1]
 LIMIT = 300
-FLIGHT_BUDGET = 60
+FLIGHT_BUDGET = 30
 SIG = 64
 TOK = 64 + SIG
 CRAFT_MUT = ["none", "drop_root", "bad_token_sig", "bad_md_sig", "wrong_pointer", "foreign_tokens", "forged_att",
@@ -144,6 +149,8 @@ class Model:
         self.delivered_att: list[set] = [set() for _ in range(n)]           # (authority idx, ptr, sig) valid, to r
         self.embedded_att: list[set] = [set() for _ in range(n)]            # (subject idx, authority bin, ptr, sig)
         self.dirty: set[tuple[int, int]] = set()
+        self.lower = [[set() for _ in range(n)] for _ in range(n)]           # lower[y][p]: see show_tokens
+        self.last_in_order: dict[tuple[int, int], bool] = {}                # (p, y): last token message p -> y
 
     # -- user consent ---------------------------------------------------------------------------------------
     def register(self, y: int, h: bytes, name: str, subj: int, meta: dict | None, now: float) -> None:
@@ -201,11 +208,28 @@ class Model:
     def verify(self, signer: int, msg: bytes, sig: bytes) -> bool:
         return _verify(self.keybins[signer], msg, sig)
 
-    def show_tokens(self, y: int, p: int, blob: bytes) -> None:
+    def show_tokens(self, y: int, p: int, blob: bytes, solicited: bool) -> bool:
+        """
+        Returns whether the blob was a sequence of valid tokens, each behind the genesis or a token that y must
+        already hold (``lower``: tokens that arrived that way while y's user had named p in a registration). Only
+        such a message is *required* to be acted upon (C1h); the upper bound (C1) uses everything ever shown.
+        """
+        tokens = self.view[y][p].tokens
+        lower = self.lower[y][p]
+        in_order = solicited and len(blob) % TOK == 0
         for off in range(0, len(blob) - TOK + 1, TOK):
             prev, chash, sig = blob[off:off + 32], blob[off + 32:off + 64], blob[off + 64:off + TOK]
             if self.verify(p, prev + chash, sig):
-                self.view[y][p].tokens[sha3(blob[off:off + TOK])] = (prev, chash)
+                th = sha3(blob[off:off + TOK])
+                tokens[th] = (prev, chash)
+                if prev == self.genesis[p] or prev in lower:
+                    if solicited:
+                        lower.add(th)
+                else:
+                    in_order = False
+            else:
+                in_order = False
+        return in_order
 
     def show_metadata(self, y: int, p: int, blob: bytes) -> list[bytes]:
         off = 0
@@ -277,7 +301,8 @@ class Run:
         self.viols: list[Violation] = []
         self.flags: set[str] = set()
         self.wire_atts: list[tuple[int, bytes]] = []   # (signer idx, attestation bytes) seen on the wire
-        self.stats = {"attest_emitted": 0, "missing_tokens": 0, "rows": 0, "cut": 0, "delivered": 0}
+        self.stats = {"attest_emitted": 0, "own_tokens_on_wire": 0, "rows": 0, "cut": 0, "delivered": 0,
+                      "must_attest": 0, "must_store": 0}
 
     # -- helpers ------------------------------------------------------------------------------------------------
     def now(self) -> float:
@@ -402,7 +427,7 @@ class Run:
             pos = self.model.own[x].get(th)
             if pos is None:
                 continue   # not a token of the own chain: the statement does not speak about it
-            self.stats["missing_tokens"] += 1
+            self.stats["own_tokens_on_wire"] += 1
             if pos >= limit:
                 kind = "unpermitted_peer" if limit == 0 else "beyond_opened_position"
                 self.fail("C3", f"{site}:{kind}",
@@ -456,18 +481,20 @@ class Run:
                         self.flags.add("two_live")
                     if any(r["subj"] == p and self.now() - r["t"] > LIMIT for r in m.latest(y).values()):
                         self.flags.add("after_expiry")
+                solicited = any(r["subj"] == p for r in m.regs[y])
                 if msg_id == 1:
-                    m.show_tokens(y, p, payload.tokens)
+                    m.last_in_order[(p, y)] = m.show_tokens(y, p, payload.tokens, solicited)
                     if any((p, mdh) in m.attested[y] for mdh in m.show_metadata(y, p, payload.metadata)):
                         self.flags.add("replay_attested")
                     self.show_embedded(y, p, payload.attestations, payload.authorities)
                 elif msg_id == 4:
-                    m.show_tokens(y, p, payload.tokens)
+                    m.last_in_order[(p, y)] = m.show_tokens(y, p, payload.tokens, solicited)
                 elif msg_id == 2:
                     att = payload.attestation
                     if len(att) >= 32 + SIG and m.verify(p, att[:32], att[32:32 + SIG]):
                         m.delivered_att[y].add((p, att[:32], att[32:32 + SIG]))
                         if not any(pk == self.keybins[y] and ptr == att[:32] for pk, _, ptr, _ in self.rows[y]):
+                            self.stats["must_store"] += 1
                             must_store = (self.keybins[y], self.keybins[p], att[:32], att[32:32 + SIG])
                     else:
                         self.flags.add("bad_attest")
@@ -565,13 +592,17 @@ class Run:
         C1h after an honest advertise x -> y.
         """
         m = self.model
-        if (x, y) in m.dirty or not m.own[x]:
+        if (x, y) in m.dirty or not m.own[x] or not m.last_in_order.get((x, y)):
             return
         tip = max(m.own[x], key=lambda t: m.own[x][t])
         for mdh, (ptr, _) in sorted(m.view[y][x].mds.items()):
-            if ptr != tip or (x, mdh) in m.attested[y]:
+            if ptr != tip:
+                continue
+            if (x, mdh) in m.attested[y]:
+                self.stats["must_attest"] += 1
                 continue
             if m.why_not(y, x, mdh, self.now(), strict=True) is None:
+                self.stats["must_attest"] += 1
                 self.fail("C1h", "honest_advertise",
                           f"{ROLE[y]} did not attest the honestly advertised metadata {mdh[:6].hex()} of {ROLE[x]} "
                           f"although its latest registration matches: {self.describe_regs(y)}")
@@ -679,11 +710,9 @@ class Run:
 NT_FLAGS = ("two_live", "after_expiry", "replay", "replay_attested", "beyond", "bad_attest")
 
 
-def execute(ctx: Ctx | None, ops: list, known_aa: bool | None = None) -> Run:
+def execute(ctx: Ctx | None, ops: list, known_aa: bool = False) -> Run:
     # the modules must be loaded before the clock is patched into them
     import ipv8.attestation.identity.community  # noqa: F401
-    if known_aa is None:
-        known_aa = is_known(PID, "C1", AA_SITE) is not None
     box: list[Run] = []
 
     async def main(loop):
@@ -778,13 +807,13 @@ def _families(quick: bool) -> list:
     return out
 
 
-def _enum_shard(ctx: Ctx, shard: int, nshards: int) -> None:
+def _enum_shard(ctx: Ctx, shard: int, nshards: int, known_aa: bool) -> None:
     cases = _families(ctx.quick)
     for k, ops in enumerate(cases):
         if k % nshards != shard:
             continue
         try:
-            execute(ctx, ops)
+            execute(ctx, ops, known_aa)
         except Violation:
             pass   # recorded by execute
     if shard == 0:
@@ -819,24 +848,52 @@ def _strategy(max_ops: int):
         .map(lambda t: ["reqmiss", t[0][0], t[0][1], t[1]])
     replay = st.tuples(st.just("replay"), st.integers(0, 60)).map(list)
     wait = st.tuples(st.just("wait"), st.integers(0, len(WAITS) - 1)).map(list)
-    op = st.one_of(reg, reg, adv, adv, adv, craft, attest, reqmiss, replay, wait)
-    return st.lists(op, min_size=1, max_size=max_ops)
+    # consent immediately followed by the matching (or nearly matching) advertise, so that attestations happen often
+    def make_matched(t):
+        (x, y), hh, n, rmeta, dev, w = t
+        ax, ah, an, ameta = x, hh, n, (1 if rmeta == 2 else 0)
+        if dev == "hash":
+            ah = (hh + 1) % len(HASHES)
+        elif dev == "name":
+            an = 1 - n
+        elif dev == "meta":
+            ameta = 2
+        elif dev == "key":
+            ax = next(i for i in (S2, S1, M, A) if i not in (x, y))
+        return ([["reg", y, hh, n, x, rmeta]] + ([["wait", w]] if w is not None else []) +
+                [["adv", ax, y, ah, an, ameta]])
+    matched = st.tuples(pair_sa, h, nm, st.sampled_from([0, 0, 0, 2]),
+                        st.sampled_from([None, None, None, None, "hash", "name", "meta", "key"]),
+                        st.sampled_from([None, None, None, 0, 5, 6])).map(make_matched)
+    single = st.one_of(reg, adv, adv, craft, attest, reqmiss, replay, replay, wait).map(lambda o: [o])
+    # optional preamble: the situation of why_tests_cant - one attester holding live registrations for two
+    # different subject keys, one of which already has its own attribute attested
+    def make_two(t):
+        y, (x1, x2), (h1, h2), n, own = t
+        pre = [["reg", y, h1, n, x1, 0], ["reg", y, h2, n, x2, 0]]
+        if own:
+            pre.append(["adv", x2, y, h2, n, 0])
+        return pre
+    two = st.tuples(attester, st.permutations([A, S1, S2, M]).map(lambda p: p[:2]),
+                    st.permutations([0, 1, 2, 3]).map(lambda p: p[:2]), nm, st.booleans()) \
+        .filter(lambda t: t[0] not in t[1]).map(make_two)
+    preamble = st.one_of(st.just([]), two)
+    body = st.lists(st.one_of(single, single, matched), min_size=1, max_size=max_ops) \
+        .map(lambda groups: [o for g in groups for o in g])
+    return st.tuples(preamble, body).map(lambda t: (t[0] + t[1])[:max_ops])
 
 
-def _random_shard(ctx: Ctx, shard: int, nshards: int, n: int, max_ops: int) -> None:
-    known_aa = is_known(PID, "C1", AA_SITE) is not None
-
+def _random_shard(ctx: Ctx, shard: int, nshards: int, n: int, max_ops: int, known_aa: bool) -> None:
     def body(ops):
-        try:
-            execute(ctx, ops, known_aa)
-        finally:
-            pass
+        execute(ctx, ops, known_aa)
     hyp_run(ctx, "histories", _strategy(max_ops), body, n, shrink_examples=150 if ctx.quick else 400)
 
 
 def run(ctx: Ctx) -> None:
-    shard_run(ctx, _enum_shard)
-    shard_run(ctx, _random_shard, extra=(40 if ctx.quick else 1200, 30 if ctx.quick else 45))
+    # a recorded (not repaired) re-attestation defect is excluded by construction: the model then tolerates it
+    known_aa = is_known(PID, "C1", AA_SITE) is not None
+    shard_run(ctx, _enum_shard, extra=(known_aa,))
+    shard_run(ctx, _random_shard, extra=(150 if ctx.quick else 2000, 30 if ctx.quick else 45, known_aa))
     ctx.note("pools", {"hashes": [h.hex() for h in HASHES], "names": NAMES, "reg_meta": REG_META,
                        "adv_meta": ADV_META, "waits": WAITS, "known": KNOWN, "craft": CRAFT_MUT,
                        "attest": ATTEST_MODES, "flight_budget": FLIGHT_BUDGET})
